@@ -43,6 +43,8 @@ def check(ctx, cfg):
     r8(ctx, cfg)
     r9(ctx, cfg)
     r10(ctx, cfg)
+    r11(ctx, cfg)
+    r12(ctx, cfg)
 
 
 def r7(ctx, cfg):
@@ -989,3 +991,181 @@ def r10(ctx, cfg):
                            for e, c in q.dominating_conditions(P, f, b))
             ctx.ob(R, key, "existing-address-refused-before-writing", all(absent(b) for b in sites),
                    "a write of add_validator is not under `VALIDATOR_MAP.may_load(address) is None`", fn=f, sample="if may_load(..).is_some() { bail! }")
+
+
+QUERY = "<staking::StakeKeeper as module::Module>::query"
+
+
+def r11(ctx, cfg):
+    """what the staking queries answer - the property is *observed* through them ("raises that delegator's delegation ...",
+    "leaves the delegation at once", "naming an unknown validator fails"), so each answer must be the record it stands for:
+    - get_stake(account, validator): the entry STAKES[(account, validator)], floor(stake) in the bonded denomination, None
+      without an entry;
+    - Delegation { delegator, validator }: the entry STAKES[(validated delegator, validator)] (default when absent) -> nothing
+      when floor(stake) is zero, else FullDelegation(delegator, validator, amount, amount, [reward] unless zero) with the
+      reward computed from that same entry, the validator of the request and its stored info; an unknown validator is an error;
+    - AllDelegations { delegator }: for every validator of get_validators, in order and without skipping, get_stake(validated
+      delegator, that validator) -> Delegation(delegator, that validator, amount);
+    - BondedDenom: the stored bonded denomination; AllValidators / Validator { address }: get_validators / get_validator(address)
+    all on the staking module's read view (C08.R3 / C15.R6)."""
+    from rules.C01 import DENY_ADAPTERS
+    F, P = cfg.facts, cfg.prov
+    R = "C14.R10"
+
+    def reqf(o, arm, name):
+        o = peel(o)
+        return o[0] == "field" and o[2] == name and peel(o[1])[0] == "variant" and peel(o[1])[2] == arm and is_param(peel(o[1])[1], "request")
+
+    def validated(o, arm, name):
+        o = peel(o)
+        return o[0] == "ok" and peel(o[1])[0] == "call" and peel(o[1])[1].endswith("Api::addr_validate") and just(peel(o[1])[2][1], lambda y: reqf(y, arm, name))
+
+    def floor_of_stake(o, entry_pred):
+        a = peel(o)
+        while a[0] == "call" and len(a[2]) == 1 and a[1].rsplit("::", 1)[-1] in ("u128", "into", "from"):
+            a = peel(a[2][0])
+        if not (a[0] == "call" and a[1].endswith("Uint128::mul_floor") and len(a[2]) == 2 and peel(a[2][0])[0] == "call" and peel(peel(a[2][0])[2][0]) == ("const", "int", 1)):
+            return False
+        st = peel(a[2][1])
+        return st[0] == "field" and st[2] == "stake" and entry_pred(st[1])
+
+    def coin_parts(o):
+        c = peel(o)
+        if c[0] == "call" and c[1] in ("cosmwasm_std::coin", "cosmwasm_std::Coin::new") and len(c[2]) == 2:
+            return c[2][0], c[2][1]
+        if c[0] == "agg" and c[1].startswith("cosmwasm_std::Coin"):
+            d = dict(c[2])
+            return d.get("amount"), d.get("denom")
+        return None, None
+
+    def bonded(o):
+        o = peel(o)
+        return o[0] == "field" and o[2] == "bonded_denom" and contains(o[1], lambda x: x[0] == "call" and x[1] in (SK + "get_staking_info", "cw_storage_plus::Item::load", "cw_storage_plus::Item::may_load"))
+
+    # ---- get_stake
+    key = SK + "get_stake"
+    g = ctx.need_fn(R, key)
+    if g is not None:
+        def entry_of_args(o):
+            return contains(o, lambda x: x[0] == "call" and x[1] == "cw_storage_plus::Map::may_load" and peel(x[2][0]) == STAKES and is_param(x[2][1], "staking_storage") and
+                            peel(x[2][2])[0] == "agg" and [is_param(v, n) for (k0, v), n in zip(peel(x[2][2])[2], ("account", "validator"))] == [True, True])
+        vals = [peel(x) for site, v in q.success_return_sites(P, g) for x in alts(peel(peel(v)[2][0][1]) if peel(v)[0] == "agg" and peel(v)[1].endswith("Result::Ok") else peel(v))]
+        somes = [x for x in vals if x[0] == "agg" and x[1].endswith("Option::Some")]
+        others = [x for x in vals if not (x[0] == "agg" and x[1].endswith(("Option::Some", "Option::None")))]
+        ok = len(somes) >= 1 and not others
+        for sm in somes:
+            amt, den = coin_parts(sm[2][0][1])
+            ok = ok and amt is not None and floor_of_stake(amt, entry_of_args) and bonded(den)
+        ctx.ob(R, key, "answers-floor-of-the-entry's-stake", ok, "get_stake answers %s" % [fmt(x)[:80] for x in vals][:3], fn=g,
+               sample="Some(Coin { bonded_denom, floor(STAKES[(account, validator)].stake) }) | None")
+    f = ctx.need_fn(R, QUERY)
+    if f is None:
+        return
+
+    def arm_calls(name, arm):
+        return [(b, t) for b, t in f.calls() if t["callee"]["key"] == name and _arm(P, f, b, "request") == arm]
+    # ---- BondedDenom / AllValidators / Validator
+    for arm, ctor, pred, want in (
+            ("BondedDenom", "cosmwasm_std::BondedDenomResponse::new", lambda a: bonded(a[0]), "get_staking_info().bonded_denom"),
+            ("AllValidators", "cosmwasm_std::AllValidatorsResponse::new",
+             lambda a: peel(a[0])[0] == "ok" and peel(peel(a[0])[1])[0] == "call" and peel(peel(a[0])[1])[1] == SK + "get_validators", "get_validators()"),
+            ("Validator", "cosmwasm_std::ValidatorResponse::new",
+             lambda a: peel(a[0])[0] == "ok" and peel(peel(a[0])[1])[0] == "call" and peel(peel(a[0])[1])[1] == SK + "get_validator" and
+             just(peel(peel(a[0])[1])[2][2], lambda y: reqf(y, "Validator", "address")), "get_validator(address)")):
+        cs = arm_calls(ctor, arm)
+        ok = len(cs) == 1 and pred(P.call_args(f, cs[0][1], cs[0][0]))
+        ctx.ob(R, QUERY, "%s-answers-%s" % (arm, want), ok, "the %s query does not answer %s" % (arm, want), fn=f, sample=want)
+    # ---- Delegation
+    fd = arm_calls("cosmwasm_std::FullDelegation::new", "Delegation")
+    ok = len(fd) == 1
+    d = "expected one FullDelegation::new in the Delegation arm, found %d" % len(fd)
+    if ok:
+        b, t = fd[0]
+        a = P.call_args(f, t, b)
+
+        def entry(o):
+            # STAKES.may_load(view, (validated delegator, validator of the request)) - default when absent
+            return contains(o, lambda x: x[0] == "call" and x[1] == "cw_storage_plus::Map::may_load" and peel(x[2][0]) == STAKES and peel(x[2][2])[0] == "agg" and
+                            len(peel(x[2][2])[2]) == 2 and validated(peel(x[2][2])[2][0][1], "Delegation", "delegator") and
+                            just(peel(x[2][2])[2][1][1], lambda y: reqf(y, "Delegation", "validator"))) and \
+                not contains(o, lambda x: x[0] == "call" and x[1] == "cw_storage_plus::Map::may_load" and peel(x[2][0]) == STAKES and not (
+                    peel(x[2][2])[0] == "agg" and len(peel(x[2][2])[2]) == 2 and validated(peel(x[2][2])[2][0][1], "Delegation", "delegator") and
+                    just(peel(x[2][2])[2][1][1], lambda y: reqf(y, "Delegation", "validator"))))
+        amt1, den1 = coin_parts(a[2])
+        amt2, den2 = coin_parts(a[3])
+        parts = [("delegator", validated(a[0], "Delegation", "delegator")),
+                 ("validator", just(a[1], lambda y: reqf(y, "Delegation", "validator"))),
+                 ("amount", amt1 is not None and floor_of_stake(amt1, entry) and bonded(den1)),
+                 ("can_redelegate", amt2 is not None and floor_of_stake(amt2, entry) and bonded(den2))]
+        # the reward list: `if reward.is_zero() { vec![] } else { vec![reward] }` or `let mut v = Vec::new(); if !reward.is_zero() { v.push(reward) }`
+        def is_reward(o):
+            r0 = peel(o)
+            if not (r0[0] == "ok" and peel(r0[1])[0] == "call" and peel(r0[1])[1] == SK + "get_rewards_internal"):
+                return False
+            ra = peel(r0[1])[2]
+            return is_param(ra[1], "block") and entry(ra[2]) and \
+                contains(ra[3], lambda x: x[0] == "call" and x[1] == SK + "get_validator" and just(x[2][2], lambda y: reqf(y, "Delegation", "validator"))) and \
+                contains(ra[4], lambda x: x[0] == "call" and x[1].startswith("cw_storage_plus::Map::") and peel(x[2][0]) == VINFO and just(x[2][2], lambda y: reqf(y, "Delegation", "validator")))
+        listed = []          # (block, the reward value) of every place a reward is put into a list
+        for b3, i3, st3 in f.stmts():
+            if st3["k"] == "assign" and st3["rv"].get("k") == "aggregate" and _arm(P, f, b3, "request") == "Delegation":
+                o3 = peel(P.rvalue(f, st3["rv"], (b3, i3)))
+                if o3[0] == "agg" and o3[1] in ("vec", "array") and len(o3[2]) == 1 and contains(o3[2][0][1], lambda x: x[0] == "call" and x[1] == SK + "get_rewards_internal"):
+                    listed.append((b3, o3[2][0][1]))
+        for b3, t3 in f.calls():
+            if t3["callee"]["key"] == "std::vec::Vec::push" and _arm(P, f, b3, "request") == "Delegation":
+                a3 = P.call_args(f, t3, b3)
+                if contains(a3[1], lambda x: x[0] == "call" and x[1] == SK + "get_rewards_internal"):
+                    listed.append((b3, a3[1]))
+        rw = [peel(x) for x in alts(peel(a[4]))]
+        shapes = all((x[0] == "agg" and x[1] in ("vec", "array") and len(x[2]) <= 1) or (x[0] == "call" and x[1].endswith(("Vec::new", "Vec::with_capacity"))) or x[0] == "upd" for x in rw)
+        rok = len(listed) == 1 and is_reward(listed[0][1]) and shapes
+        rz = []
+        if len(listed) == 1:
+            rz = [c[1][2] for e, c in q.dominating_conditions(P, f, listed[0][0]) if c[0] == "bool" and c[1][0] == "is_zero" and not q.is_derived(c) and
+                  contains(c[1][1][0], lambda x: x[0] == "call" and x[1] == SK + "get_rewards_internal")]
+        parts.append(("accumulated_rewards", rok))
+        bad = [n for n, v in parts if not v]
+        ok = not bad
+        d = "FullDelegation is not built from the request and its own entry: %s" % bad
+        # shown iff floor(stake) is not zero; rewards listed iff not zero
+        cs = [c for e, c in q.dominating_conditions(P, f, b) if c[0] == "bool" and c[1][0] == "is_zero" and not q.is_derived(c)]
+        okz = [c[1][2] for c in cs if floor_of_stake(c[1][1][0], entry) or (peel(c[1][1][0])[0] == "field" and peel(c[1][1][0])[2] == "amount")] == [False]
+        ctx.ob(R, QUERY, "Delegation-shown-iff-stake-nonzero", okz, "the Delegation arm builds the FullDelegation under %s" % [(c[1][0], c[1][2]) for c in cs], fn=f,
+               sample="if amount.is_zero() { None } else { Some(FullDelegation..) }")
+        ctx.ob(R, QUERY, "Delegation-lists-the-reward-iff-nonzero", rz == [False], "the reward is listed under is_zero == %s" % rz, fn=f,
+               sample="if reward.is_zero() { vec![] } else { vec![reward] }")
+    ctx.ob(R, QUERY, "Delegation-answers-the-request's-own-entry", ok, d, fn=f, sample="FullDelegation(delegator, validator, floor(stake), floor(stake), [reward])")
+    nv = [(b, t) for b, t in f.calls() if t["callee"]["key"] == SK + "get_validator" and _arm(P, f, b, "request") == "Delegation"]
+    okv = len(nv) == 1 and bool(fd) and any(c[0] == "variant_in" and c[2] == ("Some",) and contains(c[1], lambda x: x[0] == "call" and x[1] == SK + "get_validator")
+                                            for e, c in q.dominating_conditions(P, f, fd[0][0]))
+    ctx.ob(R, QUERY, "Delegation-of-unknown-validator-is-an-error", okv, "the Delegation arm answers without having found the validator", fn=f, sample="get_validator(validator)? is Some")
+    # ---- AllDelegations
+    dl = [(g2, b, t) for g2 in F.lexical(QUERY) for b, t in g2.calls() if t["callee"]["key"] == "cosmwasm_std::Delegation::new"]
+    ok = len(dl) == 1
+    d = "expected one Delegation::new, found %d" % len(dl)
+    if ok:
+        g2, b, t = dl[0]
+        a = P.call_args(g2, t, b)
+        def elem_addr(o):
+            o = peel(o)
+            return o[0] == "field" and o[2] == "address" and peel(o[1])[0] == "bound" and peel(o[1])[1] == "elem" and \
+                contains(peel(o[1])[2], lambda x: x[0] == "call" and x[1] == SK + "get_validators")
+        amt = peel(a[2])
+        from_get_stake = contains(amt, lambda x: x[0] == "call" and x[1] == SK + "get_stake" and validated(x[2][2], "AllDelegations", "delegator") and just(x[2][3], elem_addr))
+        ok = validated(a[0], "AllDelegations", "delegator") and just(a[1], elem_addr) and from_get_stake
+        d = "Delegation::new(%s, %s, %s)" % (fmt(a[0])[:40], fmt(a[1])[:40], fmt(amt)[:60])
+        adapters = [t2["callee"]["name"] for g3 in F.lexical(QUERY) for b2, t2 in g3.calls()
+                    if t2["callee"]["name"] in DENY_ADAPTERS - {"filter_map", "filter"} and not t2["callee"]["local"] and _arm(P, g3, b2, "request") in ("AllDelegations", "")
+                    and g3.key != QUERY or (g3.key == QUERY and t2["callee"]["name"] in DENY_ADAPTERS - {"filter_map", "filter"} and not t2["callee"]["local"] and _arm(P, g3, b2, "request") == "AllDelegations")]
+        ctx.ob(R, QUERY, "AllDelegations-walks-every-validator", not adapters, "the walk over the validators uses %s" % adapters, fn=f, sample="no skip / take / rev ..")
+    ctx.ob(R, QUERY, "AllDelegations-answers-get_stake-per-validator", ok, d, fn=f, sample="Delegation(delegator, validator.address, get_stake(delegator, validator.address))")
+
+
+def r12(ctx, cfg):
+    """the answers of R10 are made from the staking module's own records: every read and write of a staking item in staking.rs goes
+    to a view of the module's namespace, helpers see the same namespace from all their callers, and each item lives under one
+    namespace (C08.R3 restricted to staking.rs, under C14's id - parameters looked up outside the view silently come back as
+    the defaults: `TOKEN`, 10 %, 60 s)"""
+    from rules import C08
+    C08.r3(ctx, cfg, R="C14.R11", files=("src/staking.rs",), floor=37)
